@@ -202,6 +202,9 @@ func CheckTokenTotalSupply(g *GenesisConfig) error {
 		} else if token.TotalSupply.Cmp(total) != 0 {
 			return errors.Errorf("invalid token total balance for %v Expected %v but got %v", token, total, token.TotalSupply)
 		}
+		if token.MaxSupply != nil && token.TotalSupply.Cmp(token.MaxSupply) > 0 {
+			return errors.Errorf("invalid token total supply for %v It exceeds the max supply %v", token, token.MaxSupply)
+		}
 	}
 
 	for zts := range given {
